@@ -784,6 +784,20 @@ def memo_violations(fn_node):
         if isinstance(lp, ast.For):
             varying |= {x.id for x in ast.walk(lp.target)
                         if isinstance(x, ast.Name)}
+        # in `for k, v in X.items()` / `for i, v in enumerate(X)` the second
+        # target is a function of the first
+        determined = {}
+        for s in [lp] + inside:
+            if isinstance(s, ast.For) and isinstance(s.target, ast.Tuple) \
+                    and len(s.target.elts) == 2 and isinstance(
+                        s.target.elts[0], ast.Name) and isinstance(
+                        s.iter, ast.Call):
+                f_ = s.iter.func
+                if (isinstance(f_, ast.Attribute) and f_.attr == 'items') or \
+                        (isinstance(f_, ast.Name) and f_.id == 'enumerate'):
+                    for x in ast.walk(s.target.elts[1]):
+                        if isinstance(x, ast.Name):
+                            determined[x.id] = s.target.elts[0].id
         for s in inside:
             if isinstance(s, ast.For):
                 its = s.iter
@@ -861,6 +875,14 @@ def memo_violations(fn_node):
                         rest = re.sub(r'(?<![\w.])' + re.escape(kp)
                                       + r'(?!\w)', '#', rest)
                     if not is_varying(rest):
+                        continue
+                    # what is left is a function of a key component
+                    knames = set()
+                    for kp in kpaths:
+                        knames |= set(re.findall(r'[A-Za-z_]\w*', kp))
+                    left = set(re.findall(r'[A-Za-z_]\w*', rest)) & varying
+                    if left and all(determined.get(x) in knames
+                                    for x in left):
                         continue
                     hits.append((s, K, vp, lp))
                     break
